@@ -21,7 +21,8 @@ RULE = ('random import graphs (1-5 files, generator of C17) and single-file stri
         'file or preceded by a multi-line layout')
 REQUIRED = {'errors_checked': 500, 'kind_syntax': 50, 'kind_unknown': 50, 'kind_not_unique': 50, 'kind_postponed': 50,
             'in_main_file': 100, 'in_imported_file': 100, 'string_loads': 50,
-            'in_reference_list': 100, 'in_reference_list_not_first': 50}
+            'in_reference_list': 100, 'in_reference_list_not_first': 50, 'files_with_cr_line_ends': 50,
+            'files_with_crlf_line_ends': 50, 'not_unique_definitions_in_imported_file': 30}
 KINDS = ['syntax', 'unknown', 'not_unique', 'postponed']
 
 
@@ -55,6 +56,13 @@ def one(ctx, i, rep=None):
             stmt, rel = 'ref zz -> nowhere', len('ref zz -> ')
         elif kind == 'not_unique':
             stmt, rel = 'def dup def dup\nref zz ->   dup', len('def dup def dup\nref zz ->   ')
+            imps = [y for y in d.files[X]['imports'] if y != X]
+            if imps and r.random() < 0.5:
+                # the two definitions are in the first imported file, the ambiguous reference (the offending text) is in X
+                texts = dict(texts)
+                texts[imps[0]] = texts[imps[0]] + '\ndef dupx\n\n\n   def dupx\n'
+                stmt, rel = 'ref zz ->   dupx', len('ref zz ->   ')
+                ctx.count('not_unique_definitions_in_imported_file')
         else:
             stmt, rel = 'ref zz -> never', len('ref zz -> ')
         if kind != 'syntax' and r.random() < 0.5:
@@ -80,6 +88,14 @@ def one(ctx, i, rep=None):
         texts = dict(texts)
         texts[X] = newtext
         M.write_dir(d, texts)
+        eol = r.choice(['\n', '\n', '\r\n', '\r'])
+        if eol != '\n' and not as_string:
+            # files with CRLF / bare CR line ends: they are read with universal newlines, so line and column are those of
+            # the text with '\n' line ends
+            for f in d.order:
+                with open(d.files[f]['path'], 'w', newline='') as fh:
+                    fh.write(texts[f].replace('\n', eol))
+            ctx.count('files_with_cr_line_ends' if eol == '\r' else 'files_with_crlf_line_ends')
         prov = 'plain' if kind == 'not_unique' else r.choice(['plain', 'fqn'])   # only the default (plain name) lookup reports ambiguity
         inner = sp.PlainNameImportURI() if prov == 'plain' else sp.FQNImportURI()
 
